@@ -1,15 +1,21 @@
-use dashu_int::{IBig, UBig};
-use dashu_ratio::{RBig, Relaxed};
-use num_order::NumHash;
-use std::collections::hash_map::DefaultHasher;
-use std::hash::Hasher;
-fn h<T: NumHash>(t: &T) -> u64 { let mut s = DefaultHasher::new(); t.num_hash(&mut s); s.finish() }
+use dashu_int::{fast_div::ConstDivisor, UBig};
+use dvh::rng::Rng;
 fn main() {
-    let m = IBig::from(i128::MAX);
-    let r = Relaxed::from_parts(IBig::from(3) * &m, UBig::from(5u8) * UBig::try_from(m.clone()).unwrap());
-    let q = RBig::from_parts(IBig::from(3), UBig::from(5u8));
-    println!("relaxed {} rbig {} equal {}", h(&r), h(&q), h(&r) == h(&q));
-    let r2 = Relaxed::from_parts(IBig::from(-3) * &m * &m, UBig::from(5u8) * UBig::try_from(m.clone()).unwrap());
-    let q2 = RBig::from_parts(IBig::from(-3) * &m, UBig::from(5u8));
-    println!("relaxed {} rbig {} equal {}", h(&r2), h(&q2), h(&r2) == h(&q2));
+    let mut r = Rng::for_case(1, "dbg", 0);
+    let mut fails = std::collections::BTreeMap::new();
+    for n in [25usize, 47, 49, 51, 53, 55, 97, 99] {
+        for el in [1usize, 2, 3, 5, 10, 24, 25, 26, 40, 48] {
+            let mut cnt = 0;
+            for _ in 0..40 {
+                let m: Vec<u64> = (0..n).map(|_| r.u64() | 1).collect();
+                let a: Vec<u64> = (0..el.min(n)).map(|_| r.u64() | 1).collect();
+                let ring = ConstDivisor::new(UBig::from_words(&m));
+                let x = ring.reduce(UBig::from_words(&a));
+                let res = std::panic::catch_unwind(std::panic::AssertUnwindSafe(|| x.inv()));
+                if res.is_err() { cnt += 1; }
+            }
+            if cnt > 0 { fails.insert((n, el), cnt); }
+        }
+    }
+    println!("{:?}", fails);
 }
